@@ -10,6 +10,7 @@ PROP = {'lean_props': ['Comrak.Props.C11'],
                        'spInRange_sound',
                        'spx_consume_conserves',
                        'spx_consume_in_span',
+                       'spx_consume_in_range',
                        'blockEnd_after_start',
                        'blockEnd_counterexample',
                        'thematicEnd_exact_iff'],
